@@ -26,6 +26,14 @@ def run_property(pid, root, tier, overrides=None, quiet=False, write_evidence=Tr
     ctx = Ctx(pid, repo, tier=tier, quiet=quiet, known=known)
     ctx.res = Resolver(repo)
     mod.run(ctx)
+    if tier == "thorough" and overrides is None:
+        from . import thorough
+        ctx.extra = thorough.run_extras(ctx, pid, load)
+        if write_evidence:
+            st = thorough.run_selftest(root, thorough.family_of(pid))
+            ctx.extra["selftest_on_current_tree"] = st
+            for r in st["failed"]:
+                ctx.info.append("selftest: variant %s not classified as expected (%s) - checker weakness, not a property verdict" % (r[0], r[2]))
     code = ctx.finish(
         write_evidence=write_evidence,
         explanation=mod.EXPLANATION,
